@@ -28,7 +28,7 @@ func main() {
 		return
 	}
 	ev.Main("C03", "fault_enumeration",
-		"seeded receive/remove histories over <=13 blobs (empty blob, duplicate receive, remove + re-receive in every history); the LAST op is crashed at every point: files = every prefix of its VFS call trace (plus cuts inside each Write) x {un-synced data kept, dropped, zeroed} on an in-memory crash-modelling VFS; diskpacked (leveldb, kv and sqlite metaIndex, maxFileSize 2000) = crash directories materialised from a real before/after snapshot diff (every prefix of the appended record for records <=256 B, else header boundaries +-2 and 16 body cuts; index before/after; with/without next pack on roll-over; every order-consistent and, counted separately, every power-loss subset of {header rewrite (also torn), body zeroing (prefixes), index row delete}); the order of pack writes relative to the index write is OBSERVED (packs read at the index-mutation instant through a recording KV), and so is the order of header rewrite and body release inside a remove (system-call trace of a child that removes blobs of six sizes): which removal subsets a process death can leave follows the code under test, it is not assumed; every diskpacked crash state is restarted twice: on the store's own index, and (the operator's recovery path) on a FRESH index rebuilt from the pack files with diskpacked.Reindex, the history continuing on the rebuilt index; plus index-ahead-of-pack states (row present, body cut short) that are judged only after the acknowledged retry of the upload; refs are sha224 mixed with sha1 and sha256; after each restart: journal maybe-map audit (fetch, subfetch, stat, enumerate, stream incl. resumption from continuation tokens), Reindex into a fresh index + audit of a store opened on it, continued history (re-do of the in-flight op - an in-flight remove is continued both by re-receive and by re-remove, an in-flight receive by retry and by retry-then-remove -, new blobs across a roll-over, removes, duplicate and re-receive), second audit and Reindex, and last a Reindex(overwrite) attempt on the store's LIVE index (succeeding or failing) after which every acknowledged blob served before it must still be served; a slice of the diskpacked histories (removal shapes; ids h<N>np) runs on directories for which hole punching is refused (verif hook), so that every removal - prefix, crashed operation, continuation - takes the zero-fill fallback of non-Linux builds and of file systems without FALLOC_FL_PUNCH_HOLE; both tiers also replay an strace of a child (localdisk, diskpacked) against per-file dirty bits: no receive may be acknowledged with un-fsynced blob data; thorough adds real SIGKILLs of a child process on the OS filesystem (incl. multi-MiB blobs whose write(2) a kill cuts short); distinct = (store, history, crash-point kind, offset class)",
+		"seeded receive/remove histories over <=13 blobs (empty blob, duplicate receive, remove + re-receive in every history); the LAST op is crashed at every point: files = every prefix of its VFS call trace (plus cuts inside each Write) x {un-synced data kept, dropped, zeroed} on an in-memory crash-modelling VFS, plus receives whose temp-file fsync FAILS (EINVAL, ENOTSUP, ENOSYS, EIO, ENOSPC, EDQUOT, EINTR, ErrUnsupported, plain; bare and *os.PathError) followed by a crash: acknowledged or refused is observed, an acknowledged blob is owed intact; diskpacked (leveldb, kv and sqlite metaIndex, maxFileSize 2000) = crash directories materialised from a real before/after snapshot diff (every prefix of the appended record for records <=256 B, else header boundaries +-2 and 16 body cuts; index before/after; with/without next pack on roll-over; every order-consistent and, counted separately, every power-loss subset of {header rewrite (also torn), body zeroing (prefixes), index row delete}); the order of pack writes relative to the index write is OBSERVED (packs read at the index-mutation instant through a recording KV), and so is the order of header rewrite and body release inside a remove (system-call trace of a child that removes blobs of six sizes): which removal subsets a process death can leave follows the code under test, it is not assumed; every diskpacked crash state is restarted twice: on the store's own index, and (the operator's recovery path) on a FRESH index rebuilt from the pack files with diskpacked.Reindex, the history continuing on the rebuilt index; plus index-ahead-of-pack states (row present, body cut short) that are judged only after the acknowledged retry of the upload; refs are sha224 mixed with sha1 and sha256; after each restart: journal maybe-map audit (fetch, subfetch, stat, enumerate, stream incl. resumption from continuation tokens), Reindex into a fresh index + audit of a store opened on it, continued history (re-do of the in-flight op - an in-flight remove is continued both by re-receive and by re-remove, an in-flight receive by retry and by retry-then-remove -, new blobs across a roll-over, removes, duplicate and re-receive), second audit and Reindex, and last a Reindex(overwrite) attempt on the store's LIVE index (succeeding or failing) after which every acknowledged blob served before it must still be served; a slice of the diskpacked histories (removal shapes; ids h<N>np) runs on directories for which hole punching is refused (verif hook), so that every removal - prefix, crashed operation, continuation - takes the zero-fill fallback of non-Linux builds and of file systems without FALLOC_FL_PUNCH_HOLE; both tiers also replay an strace of a child (localdisk, diskpacked) against per-file dirty bits: no receive may be acknowledged with un-fsynced blob data; thorough adds real SIGKILLs of a child process on the OS filesystem (incl. multi-MiB blobs whose write(2) a kill cuts short); distinct = (store, history, crash-point kind, offset class)",
 		run)
 }
 
@@ -78,6 +78,7 @@ func run(r *ev.Run) {
 	r.Assume("index-ahead-of-pack states (index row present, record body cut short) are not produced by a process death here (the row is observed to be written after the record is synced): what the store shows before the retry is not judged, only that an ACKNOWLEDGED retry of the upload leaves the blob intact")
 	r.Assume("a removal state counts as reachable by a process death (no power-loss/ prefix) iff it is a prefix of an OBSERVED sequence of the three effects: index row vs pack content from the recording KV of that very operation, header rewrite vs body release from the strace of the diskpacked child (first occurrence of each effect; one order per run unless removes of different sizes show different orders, then either); evidence: observed_order, observed_pack_write_order, pack_write_order_source")
 	r.Assume("recovery attempt on the LIVE index: at the end of every diskpacked case the store is stopped and diskpacked.Reindex(overwrite) is run on the index the store uses (pk reindex-diskpacked -overwrite), then the store is started again; judged is only that each acknowledged, non-removed blob a view (fetch, stat, enumerate) served intact before the attempt is served intact by that view after it, whether the rebuild returned nil (reindex-inplace-lost/) or an error (reindex-failed-then-lost/); what a rebuild may add is judged on the fresh index only")
+	r.Assume("failing fsync (files store; case ids files-sf*): the Sync of the temp file of the last receive returns an error (EINVAL, ENOTSUP, ENOSYS, EIO, ENOSPC, EDQUOT, EINTR, errors.ErrUnsupported, a plain error; bare and as *os.PathError) and makes nothing durable; whether the store acknowledges that receive is observed: refused = the blob is in flight (absent or intact after the crash), acknowledged = the blob is owed intact after a crash in which un-synced data is kept, dropped or zeroed; crash kinds recv-syncfail-{refused,acked}-<variant>")
 	r.Assume("a StreamBlobs error is judged only through its consequence (an acknowledged blob not streamed); errors at a torn tail after all present blobs were delivered are counted")
 	r.Assume("file systems without hole punching (every non-Linux build; fallocate answering ENOSYS/EOPNOTSUPP): a slice of the diskpacked histories (ids h<N>np) runs in directories for which the verif hook of pkg/blobserver/diskpacked refuses the hole punch, so that every removal there - in the history prefix, as the crashed operation whose before/after diff the crash states are built from, and in the continued history after each restart - takes dele.go's zero-fill fallback; same oracles, same signatures; the order of header rewrite and zero fill is observed in the traced child too (second round of its probe removes with punching refused)")
 	scratch := ev.Scratch("c03")
@@ -180,6 +181,19 @@ func run(r *ev.Run) {
 				dir: filepath.Join(scratch, "packed-"+hid+noPunchMark)})
 		}
 	}
+	// the temp file's fsync fails in the last receive (syncfault.go): own histories sf0, sf1
+	for i, shape := range syncFaultShapes {
+		hid := fmt.Sprintf("sf%d", i)
+		hs := genHistory(r.Rand("hist/files-syncfault/"+hid), w, hid, shape)
+		prep = append(prep, func() {
+			scs := syncFaultCases(r, w, hs, i, len(syncFaultShapes))
+			mu.Lock()
+			for _, sc := range scs {
+				cases = append(cases, func() { runSyncFaultCase(r, w, sc) })
+			}
+			mu.Unlock()
+		})
+	}
 	pool(workers, prep)
 	r.Extra("histories_per_store", nHist)
 	r.Extra("crash_cases", len(cases))
@@ -228,6 +242,10 @@ func run(r *ev.Run) {
 	r.Require("ref_hashes", "sha1", "sha224", "sha256")
 	r.Require("index_kinds", "leveldb", "kv", "sqlite")
 	r.Require("vfs_variants", "kept", "dropped", "zeroed")
+	// the fsync of the temp file failed with each error, in both forms, and every crash variant was restarted
+	r.Require("sync_fault_errors", syncFaultNames...)
+	r.Require("sync_fault_forms", "patherr", "bare")
+	r.Require("sync_fault_variants", "kept", "dropped", "zeroed")
 	r.Require("crash_points_files",
 		"recv-before-first-call", "recv-after-mkdirall", "recv-after-tempfile", "recv-after-write", "recv-mid-write", "recv-after-sync",
 		"recv-after-close", "recv-after-lstat", "recv-after-rename", "remove-before-first-call", "remove-after-remove")
